@@ -67,3 +67,17 @@ package wal
 //@   property C13
 //@   ensures [segment-ends-at-record-boundary] result == nil && f != nil ==> (vfs.truncCalls == old(vfs.truncCalls) + 1 && vfs.truncAt == offset && uint64(offset) <= vfs.openedSize) || (vfs.truncCalls == old(vfs.truncCalls) && uint64(offset) == vfs.openedSize)
 //@   loop 1 invariant [offset-counts-consumed] reIter != nil && reIter.reader != nil && offset >= 0 && uint64(offset) <= vfs.openedSize && uint64(offset) + avail(reIter.reader) == vfs.openedSize && vfs.openedSize <= 1 << 62 && vfs.truncCalls == old(vfs.truncCalls) && reIter.err == nil
+
+// C09 (rotation half): when the active WAL segment is replaced, everything buffered for
+// the outgoing segment is flushed and the segment is fsynced BEFORE it is closed - a batch
+// whose records straddle the rotation is durable once the later Sync of the new segment
+// returns. Event order over the vfs ghost counters.
+//@ func (*Manager).segmentPath
+//@   trusted
+//@   modifies nothing
+//@ func (*Manager).switchSegmentLocked
+//@   property C09
+//@   requires m != nil
+//@   ensures [outgoing-segment-synced-before-close] old(m.active) != nil && fileCloses > old(fileCloses) && result == nil ==> closeSawSyncs > old(fileSyncs)
+//@   ensures [sync-covers-the-flush] old(m.active) != nil && old(m.writer) != nil && result == nil ==> syncSawFlushes > old(bufFlushes)
+//@   ensures [no-close-without-sync] old(m.active) != nil && fileCloses > old(fileCloses) ==> fileSyncs > old(fileSyncs)
